@@ -108,7 +108,12 @@ def fragile(views_eps, k):
     """is the divergence at instant k explained by a discrete decision that
     is within rounding distance of its threshold in one of the executions?"""
     for view, ep in views_eps:
-        for kk in (k - 1, k, k + 1):
+        # a self-locking train at rest hides its state (held or free) behind
+        # identical records: a lock or dead-zone decision within rounding of
+        # its threshold may show many instants later.  All instants up to the
+        # divergence are examined there, its neighbours otherwise
+        span = range(0, k + 2) if view.self_locking else (k - 1, k, k + 1)
+        for kk in span:
             if kk < 0:
                 continue
             for name, margin in decision_margins(view, ep, kk):
